@@ -145,3 +145,40 @@ def parse_frame(f: bytes):
             p.icmp_type, p.icmp_code = p.l4[0], p.l4[1]
             p.app = p.l4[4:]
     return p
+
+
+# ---------- SipHash-2-4 / SYN cookie (independent Python implementation) ----------
+def _rotl(x, b):
+    return ((x << b) | (x >> (64 - b))) & 0xFFFFFFFFFFFFFFFF
+
+
+def siphash24(k0, k1, msg: bytes) -> int:
+    M = 0xFFFFFFFFFFFFFFFF
+    v0, v1, v2, v3 = k0 ^ 0x736f6d6570736575, k1 ^ 0x646f72616e646f6d, k0 ^ 0x6c7967656e657261, k1 ^ 0x7465646279746573
+
+    def rnd(v0, v1, v2, v3):
+        v0 = (v0 + v1) & M; v1 = _rotl(v1, 13); v1 ^= v0; v0 = _rotl(v0, 32)
+        v2 = (v2 + v3) & M; v3 = _rotl(v3, 16); v3 ^= v2
+        v0 = (v0 + v3) & M; v3 = _rotl(v3, 21); v3 ^= v0
+        v2 = (v2 + v1) & M; v1 = _rotl(v1, 17); v1 ^= v2; v2 = _rotl(v2, 32)
+        return v0, v1, v2, v3
+    n = len(msg)
+    for i in range(0, n - n % 8, 8):
+        m = int.from_bytes(msg[i:i + 8], "little")
+        v3 ^= m
+        v0, v1, v2, v3 = rnd(*rnd(v0, v1, v2, v3))
+        v0 ^= m
+    b = ((n & 0xFF) << 56) | int.from_bytes(msg[n - n % 8:], "little")
+    v3 ^= b
+    v0, v1, v2, v3 = rnd(*rnd(v0, v1, v2, v3))
+    v0 ^= b
+    v2 ^= 0xFF
+    for _ in range(4):
+        v0, v1, v2, v3 = rnd(v0, v1, v2, v3)
+    return v0 ^ v1 ^ v2 ^ v3
+
+
+def cookie(key, src, dst, sport, dport) -> int:
+    s, d = ip_bytes(src), ip_bytes(dst)
+    msg = s[::-1] + d[::-1] + struct.pack("<HH", sport, dport)
+    return siphash24(key[0], key[1], msg) & 0xFFFFFFFF
